@@ -3,7 +3,7 @@
    Data = [S |-> facts of the schema (vf/facts.py), events |-> << e, ... >>]; one state per event. *)
 EXTENDS Compliance, Json, IOUtils
 Data == JsonDeserialize(IOEnv.TRACE_FILE)
-TS == Data.S
+TS == Norm(Data.S)          \* constant: evaluated once
 Evs == Data.events
 VARIABLE i
 TInit == i = 0 /\ c = [f |-> "dupNode", fv |-> [sec |-> "tag", ph |-> FALSE, kids |-> FALSE, sibs |-> FALSE, lib |-> FALSE, dep |-> FALSE, gen |-> "old"], s |-> 0]
